@@ -20,6 +20,7 @@ import TonVerif.Drv.Cost
 import TonVerif.Drv.Tl
 import TonVerif.Drv.Hashmap
 import TonVerif.Drv.Boc
+import TonVerif.Drv.BocEntry
 
 open TonVerif TonVerif.Drv
 
@@ -39,7 +40,8 @@ def handlers : List (String → List String → Option String) := [
   Cost.handle?,
   Tl.handle?,
   Hashmap.handle?,
-  Boc.handle?
+  Boc.handle?,
+  BocEntry.handle?
 ]
 
 def handle (op : String) (args : List String) : String :=
